@@ -268,6 +268,10 @@ func checkFaith(c *driver.Ctx, i int64, fc *faithCase, withCollector bool) {
 			c.Observe("written_keys_faithful", 1)
 		}
 	}
+	// (2b) the same values supplied through ${env:...} references give the same typed configuration
+	if i%2 == 0 || fc.note != "" {
+		checkIndirect(c, i, fc, ld)
+	}
 	// (3) unwritten scalar siblings of a written section: (A) are not changed by writing the keys — compared
 	// with a control load in which the same sections are present but empty — and (B) keep the factory default.
 	var ctl reflect.Value
